@@ -201,8 +201,8 @@ def parent(args):
         "violations": len(found),
     }
     # sensitivity runs against scratch copies (tools/mutant.py) must not touch the real evidence
-    evdir = os.path.join(HERE, ".work", "scratch-evidence") if os.environ.get("VERIF_SCRATCH") \
-        else os.path.join(HERE, "evidence")
+    evdir = os.path.join(HERE, ".work", "scratch-" + os.environ["VERIF_SCRATCH"], "evidence") \
+        if os.environ.get("VERIF_SCRATCH") else os.path.join(HERE, "evidence")
     os.makedirs(evdir, exist_ok=True)
     tmp = os.path.join(evdir, f".{mod.PROPERTY}.json.tmp")
     with open(tmp, "w") as f:
